@@ -65,6 +65,17 @@ func runC04(c *core.Ctx) {
 			return
 		}
 		spec := genPacketSpec(t, 1400)
+		maxExt := k == 0 && t.Chance(1, 150)
+		if maxExt {
+			// the largest RFC 3550 extension the 16-bit length word can describe, and its neighbours
+			words := []int{65535, 65534, 65535, 65533, 32768, 16384}[t.Intn(6)]
+			spec.profile, spec.legacyProfile = profLegacy, drawLegacyProfile(t)
+			spec.exts = []extEl{{0, t.Bytes(4 * words)}}
+			if len(spec.payload) > 64 {
+				spec.payload = spec.payload[:64]
+			}
+			c.Probe("max-length-extension")
+		}
 		pkt, ok := spec.build(c)
 		if !ok {
 			c.Violate("setup", "C04/setup/set-extension-rejected-well-formed", "SetExtension rejected a well-formed element of %s", spec)
@@ -82,13 +93,18 @@ func runC04(c *core.Ctx) {
 			loop.After(1000, func() { send(k) })
 			return
 		}
-		c04one(c, spec, pkt, pb)
+		cur := pb
+		if maxExt || spec.layout().total+600 > len(pb.b) {
+			cur = &poolBuf{b: make([]byte, spec.layout().total+128+2048)}
+			core.FillBytes(cur.b, t.Draw(0)|1)
+		}
+		c04one(c, spec, pkt, cur)
 		// the same *Packet is modified and marshalled again (a forwarder rewriting a header it has already
 		// sent once): anything the packet remembers from the first MarshalTo is now part of its history
 		for gen := 0; gen < 2 && len(c.Viol) == 0 && t.Chance(1, 3); gen++ {
 			if c04mutate(c, spec, pkt) {
 				c.Probe("re-marshal-after-modification")
-				c04one(c, spec, pkt, pb)
+				c04one(c, spec, pkt, cur)
 			}
 		}
 		pb.inUse = true
@@ -183,11 +199,21 @@ func c04one(c *core.Ctx, spec *pktSpec, pkt *rtp.Packet, pb *poolBuf) {
 		}
 		dirty = false
 	}
+	if dlen+8 > len(pb.b) { // a packet that outgrew its buffer class: the pool hands out a larger (dirty) one
+		nb := make([]byte, dlen+64)
+		core.FillBytes(nb, uint64(dlen)|1)
+		copy(nb, pb.b)
+		pb.b = nb
+	}
 	off := t.Intn(8)
 	if off+dlen > len(pb.b) {
 		off = 0
 	}
 	dst := pb.b[off : off+dlen]
+	if dlen == 0 && t.Bool() {
+		dst = nil // a caller that has no buffer yet: length 0 like any other too-short destination
+		c.Probe("nil-destination")
+	}
 	snap := append([]byte(nil), pb.b...)
 	short := dlen < target
 	if dirty || short {
